@@ -12,12 +12,21 @@ uint8_t *verif_new(size_t n) { uint8_t *p = malloc(n); ASSUME(p != 0); return p;
 void verif_delete(uint8_t *p) { free(p); }
 
 #ifdef ABSTRACT_PERMUTATION
+struct st40 { uint8_t b[40]; };
+struct st40 nondet_st40(void);
 void ascon_permute__pair(uint8_t *sa, uint8_t ra, uint8_t *sb, uint8_t rb)
 {
     unsigned i;
     CHECK(ra == rb, "secret-independent number of permutation rounds");
     ASSUME(ra == rb);
+#if !defined(VERIF_REPLAY) && !defined(NOWITNESS)
+    /* one assignment per state: symbolic execution cost matters when a family makes hundreds of calls */
+    (void)i;
+    *(struct st40 *)sa = nondet_st40();
+    *(struct st40 *)sb = nondet_st40();
+#else
     for (i = 0; i < 40; ++i) { sa[i] = nondet_uchar(); sb[i] = nondet_uchar(); }
+#endif
 }
 #define MASKED_STUB(n) \
 void ascon_x##n##_permute__pair(uint8_t *sa, uint8_t ra, uint8_t *pa, uint8_t *sb, uint8_t rb, uint8_t *pb) \
